@@ -6,6 +6,11 @@ ids = [p['id'] for p in props]
 
 # id -> (category, technique, text, note, design_ref)
 CHECKS = {
+ 'C06': ('exploration',
+         'property-based testing with a validity predicate (CFG verifier) over every generated function body',
+         'The control-flow-heavy end of the language generator (arbitrary nestings of ternary, &&, ||, if/else, switch/case/default/break, early return, shadowing, declarations assigned in both branches, statements after switches) produces binding and handler bodies; every eval.../on... body of the emitted header is parsed into a control-flow graph and verified: existing jump targets, entry b0, every reachable label ends in goto/branch/return (never Q_UNREACHABLE() or the closing brace), value on every reachable return of a value-returning body, and a forward must-be-assigned dataflow for every local before each read.',
+         'The emitted C++ is a one-to-one print of the IR; the scanner refuses any line it does not recognise. The same bodies are compiled (C16) and executed (C01/C13) as independent detectors.',
+         'DESIGN.md section 3 C06'),
  'C03': ('exploration',
          'property-based testing: value-first literal speller and constant-expression generator against an independent evaluator, decoded from the .ui',
          'Values are generated first and spelled by the ECMAScript lexical grammar (radix prefixes, legacy octal, separators, exponent forms, every string escape form); constant expressions over them use every foldable operator; each sits on a property of matching type (int, uint, double, bool, QString, enum, flags, QStringList, pointer). The harness\' own evaluator (checked i64, IEEE doubles, Unicode strings) gives the expected value, which must equal what an independent XML reader decodes from the .ui; undefined constants and int/double mix-ups must be rejected with an error inside the binding.',
